@@ -281,9 +281,10 @@ prop('C14',
 
 prop('C15',
      level='proof',
-     claim='Verus, unbounded: every frame the stamping loop of process_frame appends carries meta.handler_id = the handler id and '
-           'meta.frame_id = the triggering frame id (overriding script-provided values), is forced into the handler\'s context, keeps '
-           'topic/hash/ttl, and there is exactly one append per buffered frame, in buffer order (return frame last).',
+     claim='Verus, unbounded, on the whole of Handler::process_frame: the closure is evaluated exactly once; if it (or storing its return '
+           'value) fails, none of the frames of this invocation is appended; otherwise the buffered .append frames in call order and '
+           'then the return-value frame are appended, each exactly once, each carrying meta.handler_id = the handler id and '
+           'meta.frame_id = the triggering frame id (overriding script-provided values) and forced into the handler own context.',
      technique=TECH,
      units=['verus:handler_ops'],
      obligations=['handler.stamp.*', 'handler_ops.stamp_loop.body', 'handler.process_frame.*', 'handler_ops.process_frame_whole.body'],
